@@ -29,6 +29,8 @@ RULE = (
     "result must be complete (stuck = violation). A stress mode runs a real 8-thread pool with seeded "
     "resolver latencies and sys.monitoring LINE yield injection inside runtime/threadpool.py, "
     "executor.py and wrappers.py. "
+    "On the asyncio runtime the coroutine resolvers of a query's root selection set must all be suspended "
+    "at the first quiescent point (pending together). "
     "A fifth of the resolvers hand their work to info.runtime.submit() and return what they get; "
     "every class of the unexpected-exception family gets its turn across cases and shards; "
     "arguments are occasionally named like parameters of library internals (func, self, fn, args, "
@@ -176,6 +178,17 @@ def run_config(ctx, rng, case, config, text, op, variables, ref, base_witness, m
                 ctx.observe("futures-pending-at-quiescence", st["pending_at_quiescence"])
         w = dict(base_witness, config=config, schedule=schedule, done_at_submit_choices=eager,
                  completion_order=[list(map(str, t)) for t in trace])
+        if config in ("asyncio-coroutines", "asyncio-mixed") and op.kind == "query":
+            # "every order in which pending results become available": the coroutine resolvers of the root
+            # selection set have to be pending together, or no order but the written one can ever happen
+            roots = set(t[1:] for t in trace if t and t[0] == "gate" and len(t) == 2)
+            ctx.count("root_coroutines_checked_for_being_in_flight_together", len(roots))
+            late = sorted(roots - set(sched.LAST_FRONTIER))
+            if late:
+                ctx.violation("sibling-coroutines-not-in-flight-together:%s" % config, w,
+                              "root fields %r were only started after another root field had completed (pending at the "
+                              "first quiescent point: %r)" % (late, sched.LAST_FRONTIER[:6]))
+                break
         if not check_outcome(ctx, ref, out, w, config):
             break
     if exhaustive and n > 1:
